@@ -569,3 +569,43 @@ func (w *World) Scan(log string) []Leak {
 	sort.Slice(leaks, func(i, j int) bool { return leaks[i].Where+leaks[i].Kind < leaks[j].Where+leaks[j].Kind })
 	return leaks
 }
+
+// ---- fork support (C16 forked replay, C18 fault enumeration) --------------------
+
+type WorldSnap struct {
+	in                                       Snap
+	now                                      int
+	ct, rt, tt, otp, rc, sc, os, ts, rm, sec int
+	smsTick                                  map[string]int
+	smsSeen                                  map[string]string
+}
+
+func (w *World) Snapshot() WorldSnap {
+	s := WorldSnap{in: w.In.Snapshot(), now: w.Now, ct: len(w.ct), rt: len(w.rt), tt: len(w.tt), otp: len(w.otp), rc: len(w.rc),
+		sc: len(w.sc), os: len(w.os), ts: len(w.ts), rm: len(w.rmHash), sec: len(w.Secrets),
+		smsTick: map[string]int{}, smsSeen: map[string]string{}}
+	for k, v := range w.smsTick {
+		s.smsTick[k] = v
+	}
+	for k, v := range w.smsSeen {
+		s.smsSeen[k] = v
+	}
+	return s
+}
+
+func (w *World) Restore(s WorldSnap) {
+	w.In.Restore(s.in)
+	w.Now = s.now
+	w.ct, w.rt, w.tt, w.otp, w.rc = w.ct[:s.ct], w.rt[:s.rt], w.tt[:s.tt], w.otp[:s.otp], w.rc[:s.rc]
+	w.sc, w.os, w.ts, w.rmHash, w.Secrets = w.sc[:s.sc], w.os[:s.os], w.ts[:s.ts], w.rmHash[:s.rm], w.Secrets[:s.sec]
+	w.smsTick, w.smsSeen = map[string]int{}, map[string]string{}
+	for k, v := range s.smsTick {
+		w.smsTick[k] = v
+	}
+	for k, v := range s.smsSeen {
+		w.smsSeen[k] = v
+	}
+	w.In.Mail.take()
+	w.In.SMSOut.take()
+	w.In.Log.take()
+}
